@@ -100,6 +100,7 @@ func Load(patterns ...string) (*Engine, error) {
 	cfgS.EnvRef = e.Env
 	cfgS.Resolver = e.resolveImpl
 	cfgS.IfaceFrame = func(it types.Type, m string) ([]string, int) { return e.Frames().MayWriteIface(it, m) }
+	cfgS.FuncFrame = func(fn *ssa.Function) []string { return e.Frames().MayWrite(fn) }
 	for _, p := range prog.AllPackages() {
 		if !strings.HasPrefix(p.Pkg.Path(), ElysMod) {
 			continue
